@@ -77,28 +77,78 @@ def msg_fields(msg):
 
 
 class FakeTransport(asyncio.Transport):
-    """Records write()/close()/abort(); like a real stream transport it is `closing` after
-    close() and the harness then stops delivering data."""
+    """A stream transport as asyncio documents it (asyncio-protocol.rst, WriteTransport), seen
+    from both ends of the connection.
 
-    def __init__(self, events):
+    `room`: how many bytes the socket still takes because the peer reads them (None = all of
+    them: the peer keeps reading).  write(data) never blocks: what the socket takes reaches the
+    peer at once, the rest waits in the transport's write buffer, behind what is waiting there
+    already.  close(): "buffered data will be flushed", then the connection closes.  abort():
+    "buffered data will be lost", the connection closes at once.  is_closing() is true after
+    either, and the harness then stops delivering data.
+
+    The events say what the PEER gets, in the order of the calls: ("W", bytes) for bytes handed
+    to write() that reach it (at once, or when close() flushes them; bytes still buffered at the
+    end of a session that nobody closed are on their way), ("LOST", bytes) for bytes that were
+    still in the write buffer when abort() threw it away, ("C",) for the end of the connection by
+    close() or abort().  With an empty write buffer abort() and close() are the same thing for
+    the peer, and the same events."""
+
+    HIGH_WATER = 64 * 1024          # asyncio's default: pause_writing() above it
+
+    def __init__(self, events, room=None):
         super().__init__()
         self.events = events
         self.closed = False
+        self.aborted = False
+        self.room = room
+        self.unsent = []            # [index into events, bytes of that write the socket took]
+        self.protocol = None
+        self.paused = False
+        self.max_buffered = 0
+
+    def set_protocol(self, protocol):
+        self.protocol = protocol
+
+    def get_protocol(self):
+        return self.protocol
+
+    def get_write_buffer_size(self):
+        return sum(len(self.events[i][1]) - off for i, off in self.unsent)
 
     def write(self, data):
-        self.events.append(("W", bytes(data)))
+        data = bytes(data)
+        self.events.append(("W", data))
+        if self.closed or self.room is None or not data:
+            return                  # (a write after close is judged by the oracle as it stands)
+        taken = 0 if self.unsent else min(self.room, len(data))
+        self.room -= taken
+        if taken < len(data):
+            self.unsent.append([len(self.events) - 1, taken])
+            self.max_buffered = max(self.max_buffered, self.get_write_buffer_size())
+            if self.protocol is not None and not self.paused and self.get_write_buffer_size() > self.HIGH_WATER:
+                self.paused = True
+                self.protocol.pause_writing()
 
     def writelines(self, datas):
         for d in datas:
             self.write(d)
 
     def close(self):
+        if not self.closed:
+            self.unsent = []        # flushed: every byte written so far reaches the peer
         self.events.append(("C",))
         self.closed = True
 
     def abort(self):
-        self.events.append(("ABORT",))
+        # the write buffer is discarded: what the socket had not taken never reaches the peer
+        for i, off in reversed(self.unsent):
+            data = self.events[i][1]
+            self.events[i:i + 1] = ([("W", data[:off])] if off else []) + [("LOST", data[off:], data)]
+        self.unsent = []
+        self.events.append(("C",))
         self.closed = True
+        self.aborted = True
 
     def is_closing(self):
         return self.closed
@@ -135,7 +185,7 @@ __import__("common").quiet(_LOG)
 _LOG.propagate = False
 
 
-def make_connection(tcp, maxsize, client, events, tokenmanager=None):
+def make_connection(tcp, maxsize, client, events, tokenmanager=None, room=None):
     conn_ref = [None]
     pool = tcp.TCPClient() if client else tcp.TCPServer()
     pool._tokenmanager = tokenmanager or RecordingTokenManager(events, conn_ref)
@@ -148,15 +198,17 @@ def make_connection(tcp, maxsize, client, events, tokenmanager=None):
         pool._pool[("2001:db8::2", 40000)] = conn
     else:
         pool._pool.add(conn)
-    transport = FakeTransport(events)
+    transport = FakeTransport(events, room=room)
+    transport.set_protocol(conn)
     return pool, conn, transport
 
 
-def run_session(tcp, maxsize, chunks, client=False):
+def run_session(tcp, maxsize, chunks, client=False, room=None):
     """connection_made, the chunks while the transport is open, connection_lost(None) if it
-    was closed.  Returns (canonical string, event list, connection)."""
+    was closed.  `room`: see FakeTransport (back-pressure: the peer stops reading after that many
+    bytes).  Returns (canonical string, event list, connection)."""
     events = []
-    pool, conn, transport = make_connection(tcp, maxsize, client, events)
+    pool, conn, transport = make_connection(tcp, maxsize, client, events, room=room)
     conn.connection_made(transport)
     for ch in chunks:
         if transport.closed:
@@ -164,11 +216,11 @@ def run_session(tcp, maxsize, chunks, client=False):
         try:
             conn.data_received(ch)
         except Exception as e:          # an escaping exception is an observation
-            events.append(("EXC", type(e).__name__))
+            events.append(("EXC", type(e).__name__, isinstance(e, Warning)))
             break
     if transport.closed and not any(e[0] == "EXC" for e in events):
         conn.connection_lost(None)
-    return render_events(events) + " |" + render_conn(conn, transport), events, conn
+    return render_events(events) + " |" + render_conn(conn, transport), events, conn, transport
 
 
 def fail_kind(exc):
@@ -197,6 +249,8 @@ def render_events(events):
             out.append("E:" + fail_kind(e[1]) + ("" if e[2] else "!remote"))
         elif k == "EXC":
             out.append("EXC:" + e[1])
+        elif k == "LOST":
+            out.append("LOST" + render(e[1]))
         else:
             out.append(k)
     return " ".join(out)
@@ -359,7 +413,20 @@ def oracle_session(maxsize, stream, events, is_network_error):
     frames made the endpoint abort cannot be read from the events: the later frame's verdict and
     key stay, and the verdict says where the Abort stands."""
     notes = {}
+    # The peer's view: bytes that were still in the transport's write buffer when the endpoint
+    # called abort() on it never arrived.  The session is judged on what did arrive.
+    lost = [e for e in events if e[0] == "LOST"]
+    events = [e for e in events if e[0] != "LOST"]
     verdict, key = _oracle_session(maxsize, stream, events, is_network_error, notes)
+    if lost:
+        kinds = [(o_single_frame(e[2]) or (None,))[0] for e in lost]
+        what = ("%d bytes handed to transport.write() never reached the peer: the endpoint shut the transport down with "
+                "abort(), which discards the write buffer they were still waiting in (close() flushes it)"
+                % sum(len(e[1]) for e in lost))
+        if 229 in kinds:
+            return ("the endpoint closed the connection, but its Abort message did not reach the peer: " + what
+                    + (" [the peer's view: %s]" % verdict if verdict else ""), "tcp-abort-lost")
+        return (what + (" [the peer's view: %s]" % verdict if verdict else ""), "tcp-write-lost")
     if not verdict:
         return verdict, key
     for what, (k, text) in sorted(notes.items(), key=lambda kv: kv[1][0]):
@@ -378,9 +445,11 @@ def _oracle_session(maxsize, stream, events, is_network_error, notes):
     whatever else was in the chunk that made it close.  Returns (verdict, key)."""
     for e in events:
         if e[0] == "EXC":
-            return ("exception %s escaped data_received" % e[1], "tcp-exception-escaped:" + e[1])
-        if e[0] in ("ABORT", "EOF"):
-            return ("unexpected transport call " + e[0], "tcp-transport-call")
+            return ("exception %s escaped data_received%s" % (e[1], " (a warning issued by library code while it handled the "
+                    "peer's bytes; the session runs with warnings turned into errors, as under python -W error)"
+                    if len(e) > 2 and e[2] else ""), "tcp-exception-escaped:" + e[1])
+        if e[0] == "EOF":
+            return ("the endpoint half-closed the connection (write_eof)", "tcp-transport-call")
     ev = []
     after = []
     for n, e in enumerate(events):
